@@ -420,6 +420,9 @@ func c20World(doc c20Doc, text []byte) map[string][]byte {
 // ---------------------------------------------------------------- enumeration
 
 func c20Enumerate(tier string, yield func(any)) {
+	for v := 0; v < len(c20BrokenEntries)*3; v++ {
+		yield(&c20Case{Kind: "broken-entry", A: v % len(c20BrokenEntries), B: v / len(c20BrokenEntries)})
+	}
 	docs := c20Load()
 	for i := range docs {
 		yield(&c20Case{Kind: "corpus", Doc: i})
@@ -482,6 +485,7 @@ func c20Enumerate(tier string, yield func(any)) {
 	}
 	for v := 0; v < len(c20HashVariants()); v++ {
 		yield(&c20Case{Kind: "hashline", A: v})
+
 	}
 	// key files of other tools: EC scalars written shorter or longer (zero-padded) than the curve size
 	for i := range refx509.Curves {
@@ -497,10 +501,46 @@ func c20Enumerate(tier string, yield func(any)) {
 
 // ---------------------------------------------------------------- execution
 
+// directory entries that are listed but cannot be read as a file (native directory, binary)
+var c20BrokenEntries = []string{"link to a file that does not exist", "link to itself", "link to a directory", "link to a file in a directory that does not exist"}
+
+// c20BrokenEntry: a valid two-entity directory plus one entry with a configuration suffix (B: .yaml, .json, .pem next to
+// a configuration) that cannot be opened as a file. The binary ends with a message and an exit status, never with a crash.
+func c20BrokenEntry(x *engine.Ctx, c *c20Case) {
+	w := simfs.New(simfs.TickPerWrite)
+	w.Put("root.yaml", []byte("version: 1\nsubject: CN=root\nkeyAlgorithm: P-224\n"))
+	w.Put("sub.yaml", []byte("version: 1\nsubject: CN=sub\nissuer: root\nkeyAlgorithm: P-224\n"))
+	w.Put("root.pem", FixtureKeyPEM("P-224-0"))
+	link := []string{"broken.yaml", "nested/broken.json", "sub.pem"}[c.B]
+	target := []string{"gone/nowhere.txt", link, "adir", "no-such-dir/x.yaml"}[c.A]
+	if c.A == 2 {
+		w.Put("adir/readme.txt", []byte("a directory\n"))
+	}
+	w.Symlinks = map[string]string{link: target}
+	x.Nontrivial(fmt.Sprintf("broken-entry %d %d", c.A, c.B))
+	for run := 1; run <= 2; run++ {
+		res, err := drive.RunCLI(w, drive.Default, "y\n")
+		if err != nil {
+			x.Cap("cli: " + err.Error())
+			return
+		}
+		x.TraceValidated(1)
+		x.Transition(1)
+		out := res.Stdout + res.Stderr
+		if strings.Contains(out, "panic:") || strings.Contains(out, "goroutine 1 [") || strings.Contains(out, "runtime error") || res.Exit == 2 || res.Exit < 0 {
+			x.Violation("C20/panic/cli entry="+c20BrokenEntries[c.A], fmt.Sprintf("%s is a %s: run %d of the binary crashed (exit %d): %s", link, c20BrokenEntries[c.A], run, res.Exit, short(out, 600)))
+			return
+		}
+	}
+	x.Outcome("broken directory entry: exit status, no crash")
+}
+
 func c20Exec(x *engine.Ctx, cc any) {
 	c := cc.(*c20Case)
 	docs := c20Load()
 	switch c.Kind {
+	case "broken-entry":
+		c20BrokenEntry(x, c)
 	case "one":
 		res, w := c20RunWorld(x, c.Files, c.Strats, c.What)
 		if strings.HasSuffix(c.What, "[expect error]") && res.Panic == "" && res.OK() {
@@ -1067,7 +1107,7 @@ func init() {
 	register(&engine.Check{
 		ID:          "C20",
 		Level:       "exploration",
-		Rule:        "deviation-bounded enumeration from a valid corpus (the two *-example.yaml documents, examples/, the certificate/extension/profile schema test corpora read from /repo, and artifacts gopki produces): (1) every scalar and container slot of every corpus document replaced by each of 41 hostile values (empty, blank, 0, -1, 2^31, 2^63, 10^30, 1e400, 1.5, OIDs with over-long arcs / wrong first arcs / single arc, impossible dates, huge durations, malformed base64, wrong types, 100 kB string, NUL, emoji, null, [], {}, nested containers) and by removal of the slot, the document placed as root with a child (or as profile of two entities) and run default; default; -a on a fresh directory, and edited into the directory already generated from the unmodified document and run default; -e -o -c (existing certificates, keys and hash lines meet the hostile text); seven added documents give the validity shapes from+duration, from+until, from-only, until-only (certificate and profile) that the repository's documents lack; thorough adds two deviations for all pairs among OID-, date- and raw-valued slots of the example documents; (1c) key-only artifacts whose EC scalar is written in 1 .. curve size + 8 octets on all ten curves; (1b) a settled directory in which the read of each file in turn breaks off with an I/O error after every 5th offset; (2) byte level: every prefix and every offset x 8 bytes of the configuration texts through ParseConfig (quick: documents <=3 kB), every cut and offset x 7 bytes of generated PEM files, every offset x 6 byte values of the DER inside each PEM block re-armoured, through ReadPem and whole runs; 12 placements of the #HASH line x 32 strategies; (3) root and sub artifact each in 10 states (no file, empty, hash only, cert only, key only, CSR only, cert+key, cert+CSR, key+CSR, garbage) x 32 strategies followed by a default run, and the three-tier extension. Oracle: no panic / fatal error; an over-long OID arc in an OID-valued slot must make ParseConfig return an error. non-trivial = distinct mutated inputs executed",
+		Rule:        "deviation-bounded enumeration from a valid corpus (the two *-example.yaml documents, examples/, the certificate/extension/profile schema test corpora read from /repo, and artifacts gopki produces): (1) every scalar and container slot of every corpus document replaced by each of 41 hostile values (empty, blank, 0, -1, 2^31, 2^63, 10^30, 1e400, 1.5, OIDs with over-long arcs / wrong first arcs / single arc, impossible dates, huge durations, malformed base64, wrong types, 100 kB string, NUL, emoji, null, [], {}, nested containers) and by removal of the slot, the document placed as root with a child (or as profile of two entities) and run default; default; -a on a fresh directory, and edited into the directory already generated from the unmodified document and run default; -e -o -c (existing certificates, keys and hash lines meet the hostile text); seven added documents give the validity shapes from+duration, from+until, from-only, until-only (certificate and profile) that the repository's documents lack; thorough adds two deviations for all pairs among OID-, date- and raw-valued slots of the example documents; (1c) key-only artifacts whose EC scalar is written in 1 .. curve size + 8 octets on all ten curves; (1b) a settled directory in which the read of each file in turn breaks off with an I/O error after every 5th offset; (2) byte level: every prefix and every offset x 8 bytes of the configuration texts through ParseConfig (quick: documents <=3 kB), every cut and offset x 7 bytes of generated PEM files, every offset x 6 byte values of the DER inside each PEM block re-armoured, through ReadPem and whole runs; 12 placements of the #HASH line x 32 strategies; (3) root and sub artifact each in 10 states (no file, empty, hash only, cert only, key only, CSR only, cert+key, cert+CSR, key+CSR, garbage) x 32 strategies followed by a default run, and the three-tier extension. Oracle: no panic / fatal error; an over-long OID arc in an OID-valued slot must make ParseConfig return an error. non-trivial = distinct mutated inputs executed; the binary on a native directory that holds, next to two valid entities, an entry with a configuration or artifact name that cannot be opened as a file (a link to nothing, to itself, to a directory, into a directory that does not exist) x 3 names, two runs each: a message and an exit status, never a crash",
 		Bound:       map[string]string{"deviations from the corpus": "1 (thorough: 2 for OID/date/raw slots)"},
 		Assumptions: []string{"'all byte strings' is unbounded; coverage-guided mutation is sampling and outside this technique: decided is exactly the deviation-bounded space", "fatal (unrecoverable) errors are attributed to the announced case"},
 		Budget:      budgets(quickBudget, thoroughBudget),
